@@ -294,8 +294,12 @@ int vf_default_place (vf_rng *r)
 }
 int vf_buf_alloc (vf_buf *b, pixman_format_code_t fmt, int w, int h, int pad_words, int neg, int place)
 {
+    return vf_buf_alloc_raw (b, fmt, PIXMAN_FORMAT_BPP (fmt), w, h, pad_words, neg, place);
+}
+int vf_buf_alloc_raw (vf_buf *b, pixman_format_code_t fmt, int bpp, int w, int h, int pad_words, int neg, int place)
+{
     memset (b, 0, sizeof *b);
-    b->fmt = fmt; b->w = w; b->h = h; b->bpp = PIXMAN_FORMAT_BPP (fmt); b->place = place;
+    b->fmt = fmt; b->w = w; b->h = h; b->bpp = bpp; b->place = place;
     int64_t rowbits = (int64_t)w * b->bpp;
     b->rowbytes = (int)((rowbits + 31) / 32 * 4);
     int stride = b->rowbytes + 4 * pad_words;
